@@ -566,6 +566,8 @@ func harnessMain(args []string) int {
 		case "--max":
 			fmt.Sscanf(args[i+1], "%d", &spec.MaxPaths[0])
 			spec.MaxPaths[1] = spec.MaxPaths[0]
+		case "--budget":
+			fmt.Sscanf(args[i+1], "%d", &spec.Budget)
 		}
 	}
 	nw := envInt("SYMGO_WORKERS", runtime.NumCPU())
